@@ -2,21 +2,34 @@
 # Runs a command with /repo replaced -- for that command and its children only -- by a private
 # clone of /repo's HEAD (mount namespace + bind mount), so that tools which patch /repo's working
 # tree (tools/selftest.py, tools/with_patch.sh) cannot disturb anything else that reads /repo, e.g.
-# a `vp run` in progress.   usage: tools/iso.sh <command...>
+# a `vp run` in progress.   usage: [ISO_VERIF=1] tools/iso.sh <command...>
+# With ISO_VERIF=1 the command also gets a private copy of /verif (build directories included), so
+# that checks can be run in the real /verif at the same time; selftest/results.json is copied back.
 set -eu
 ISO=/var/tmp/repo-iso-$$
-# The target directories under /verif are shared with runs outside the namespace. A file that was
-# patched and restored in the clone has a newer time there than in /repo, and the artifacts built
-# from the patched clone would look fresh to cargo outside: every such file is touched in /repo at
-# the end, so that the next build outside recompiles it.
+VISO=/var/tmp/verif-iso-$$
+# Without ISO_VERIF the target directories under /verif are shared with runs outside the namespace.
+# A file that was patched and restored in the clone has a newer time there than in /repo, and the
+# artifacts built from the patched clone would look fresh to cargo outside: every such file is
+# touched in /repo at the end, so that the next build outside recompiles it.
 finish() {
-    (cd "$ISO" && git ls-files -z | while IFS= read -r -d '' f; do
-        if [ -e "/repo/$f" ] && [ "$ISO/$f" -nt "/repo/$f" ]; then touch "/repo/$f"; fi
-    done)
+    if [ -d "$VISO" ]; then
+        cp "$VISO/selftest/results.json" /verif/selftest/results.json 2>/dev/null || true
+        rm -rf "$VISO"
+    else
+        (cd "$ISO" && git ls-files -z | while IFS= read -r -d '' f; do
+            if [ -e "/repo/$f" ] && [ "$ISO/$f" -nt "/repo/$f" ]; then touch "/repo/$f"; fi
+        done)
+    fi
     rm -rf "$ISO"
 }
 trap finish EXIT
 git clone -q /repo "$ISO"
 # same file times as /repo, so that cargo does not rebuild the world on every switch
 (cd /repo && git ls-files -z | xargs -0 -I{} touch -r "/repo/{}" "$ISO/{}")
-unshare -m bash -c 'mount --bind "$0" /repo && shift 0 && exec "$@"' "$ISO" "$@"
+if [ "${ISO_VERIF:-0}" = 1 ]; then
+    rsync -a --exclude target-asan --exclude target-cov --exclude .work --exclude replays /verif/ "$VISO/"
+    unshare -m bash -c 'mount --bind "$0" /repo && mount --bind "$1" /verif && shift && cd /verif && exec "$@"' "$ISO" "$VISO" "$@"
+else
+    unshare -m bash -c 'mount --bind "$0" /repo && exec "$@"' "$ISO" "$@"
+fi
